@@ -221,6 +221,13 @@ def san_verdict(stderr):
     if m.group(5): return "msan:" + m.group(5) + where
     return "leak" + where
 
+IMPL_STACK_KB = None        # a check may run the implementation with a small native stack (input-proportional stack use shows)
+def _impl_limits():
+    if IMPL_STACK_KB:
+        import resource
+        try: resource.setrlimit(resource.RLIMIT_STACK, (IMPL_STACK_KB * 1024, resource.getrlimit(resource.RLIMIT_STACK)[1]))
+        except Exception: pass
+
 def run_impl_chunk(exe, scenarios, timeout_per=20.0, env_extra=None):
     """run scenarios sequentially in one driver process; on crash, record and
     restart after the failing scenario.  Returns list of (lines, verdict)."""
@@ -238,7 +245,7 @@ def run_impl_chunk(exe, scenarios, timeout_per=20.0, env_extra=None):
             data = "".join("reset\n" + "\n".join(s) + "\n" for s in scenarios[i:]).encode()
             try:
                 p = subprocess.run([exe, root], input=data, stdout=subprocess.PIPE, stderr=subprocess.PIPE,
-                                   timeout=max(30.0, timeout_per * min(len(scenarios) - i, 50)), env=env)
+                                   timeout=max(30.0, timeout_per * min(len(scenarios) - i, 50)), env=env, preexec_fn=_impl_limits)
                 rc, so, se = p.returncode, p.stdout.decode("utf-8", "replace"), p.stderr.decode("utf-8", "replace")
                 timed_out = False
             except subprocess.TimeoutExpired as te:
